@@ -490,7 +490,7 @@ func (w *World) act(rs *reqState, id string, c *rux.Context, a Action) {
 		selfMu.Unlock()
 	case "obsrec":
 		v, ok := c.Get(rux.CTXRecoverResult)
-		add("rec", fmt.Sprintf("%t:%v", ok, v))
+		add("rec", fmt.Sprintf("%t:%T:%v", ok, v, v))
 	case "redispatch":
 		u := *c.Req.URL
 		u.Path = a.S
